@@ -460,14 +460,28 @@ META = {
                 'scan cannot throw from an all-satisfied state, exhausting maxtries is a normal return); of Blocks::split the mergeRight half is proved to keep every '
                 'constraint satisfied given that findMinOutConstraint delivers a most violated out-constraint (C01_static_merge_right_all_sat_partial). The entail_check certificate is still evaluated on '
                 'every instance (model\'s and implementation\'s constraint sets) as validation of model and chain lemma. The model is compared exactly '
-                'with the compiled generators on every run.',
-        'design_ref': 'DESIGN.md 5.9'},
+                'with the compiled generators on every run. '
+                'Follow-up 9.18: C09_borders_restored_every_n (the model always returns and the border globals are the caller\'s, for EVERY rectangle list, n = 0 and 1 '
+                'included; Examples borders_restored_n0 / _n1), C09_call_sequence_borders_sizes (any sequence of calls in one process with the globals threaded: '
+                'borders and sizes after every call), C09_removeoverlaps_small (n <= 1: no constraint in any pass, nothing moves), C09_early_return_refuted (the '
+                'early return between padding and restoration leaks EXTRA_GAP and changes the size read through the getters); C09_dup_ids_no_overlap (HEAD\'s '
+                'CmpNodePos is total for EVERY id list on distinct Node objects, so the generated set is complete with duplicate Variable ids in either address '
+                'order) and C09_idonly_comparator_refuted (position-then-id-only comparator: tied nodes become equivalent std::set keys, no constraint, overlap).',
+        'design_ref': 'DESIGN.md 5.9, 9.18'},
     'level_note': 'Trusted: Coq kernel; the hand-written models (Rect/RectBase.v, ScanlineModel.v, RemoveOverlapsModel.v: validated by exact correspondence on '
                   'every run, not derived from the source; cpp2v cannot translate reads of the mutable statics xBorder/yBorder nor intra-class method '
                   'calls); extraction and the OCaml/C++ drivers; glibc qsort = merge sort (compare_events is not a consistent comparator). The solver is '
                   'a parameter of the model (C01/C02 own it); in the correspondence it is the real vpsc::Solver. The exact-rational model cannot follow '
                   'branches decided by binary64 rounding of the non-dyadic 1e-3 padding, so removeoverlaps is compared with the model only on '
                   'generic-position inputs (1e-6); on all inputs the property\'s own oracle checks the real output (no overlap 1e-6, sizes 1e-9, borders '
-                  'restored, no exception). The clause `fixed rectangles move < 1% of the mean size` is asserted on every run for every generated fixed subset; it is FALSE for the code (fixed = weight 10000, not a pin) and reported as the known finding fixed_rect_displaced (sub-families cluster / fixed_overlap, corpus/c09_fixed_displaced.json) through a classifier evaluated on the failing case: 10000*|delta_f| <= sum of the other rectangles\' weighted displacements per axis (the weighted-mean balance of a VPSC block); an unbalanced displacement stays a VIOLATION. Exception path (F-e: catch(char*) never matches) is not reachable on DAGs and not covered.',
+                  'restored, no exception). The clause `fixed rectangles move < 1% of the mean size` is asserted on every run for every generated fixed subset; it is FALSE for the code (fixed = weight 10000, not a pin) and reported as the known finding fixed_rect_displaced (sub-families cluster / fixed_overlap, corpus/c09_fixed_displaced.json) through a classifier evaluated on the failing case: 10000*|delta_f| <= sum of the other rectangles\' weighted displacements per axis (the weighted-mean balance of a VPSC block); an unbalanced displacement stays a VIOLATION. Exception path (F-e: catch(char*) never matches) is not reachable on DAGs and not covered. '
+                  'Degenerate sizes (9.18): removeoverlaps with n = 0, 1, 2 for every combination of fixed set (also indices naming no rectangle) / thirdPass / caller borders as single calls (R) and as '
+                  'sequences of calls in ONE process (harness command Q, all three overloads; borders set once, Rectangle::xBorder/yBorder, a witness rectangle outside every call and every rectangle\'s '
+                  'width()/height() read back after EACH call; families seq-exhaustive, seq-order, seq-random, corpus/c09_seq.json). '
+                  'Variables sharing an id (9.18): generateX/YConstraints through the public API with caller-chosen ids (G modes 20-22; families identical / concentric / column / row / tied-mix / gen x id '
+                  'patterns zero / const / mod2 / half / rand2 / randn / distinct-rev, allocator primings; corpus/c09_dupids.json) on the assert build AND an NDEBUG build of libvpsc; judged only by what does '
+                  'not depend on which tied node comes first: assertion / crash (a crashing command is reported and the batch restarted behind it) and the verified certificates entail_check / topo_check on '
+                  'the emitted set. The address-dependent ORDER of such a set is C20\'s known finding scanline_addr_tiebreak_dup_ids, deliberately not judged here; an incomplete set, an assertion or a crash is '
+                  'a VIOLATION in C09 (and a crash / assertion also in C20).',
     'technique': 'Coq proof over a hand-written model + exact correspondence + verified certificate checkers on real outputs',
 }
